@@ -29,11 +29,12 @@ class HarnessError(Exception):
 
 class Claim:
     """lhs (kind) rhs; kind in eq, le, lt, ge, gt, ne; label identifies the obligation"""
-    __slots__ = ("label", "lhs", "rhs", "kind", "tol", "extra")
+    __slots__ = ("label", "lhs", "rhs", "kind", "tol", "extra", "alt")
 
-    def __init__(self, label, lhs, rhs, kind="eq", tol=None, extra=()):
+    def __init__(self, label, lhs, rhs, kind="eq", tol=None, extra=(), alt=()):
         self.label, self.lhs, self.rhs, self.kind, self.tol = label, lhs, rhs, kind, tol
         self.extra = tuple(extra)  # additional assumptions (z3 Bool) for this claim only
+        self.alt = tuple(alt)  # equivalent reformulations (Claims) tried when the solver answers unknown
 
 
 def claim_formula(c: Claim):
@@ -360,6 +361,13 @@ def run_harness(h: Harness, seed=0, tier="quick", shard=None):
                     rec["status"] = "spurious"
             elif res["status"] == "unknown":
                 rec["reason"] = res.get("reason")
+                for ac in (getattr(c, "alt", ()) if not isinstance(c, tuple) else ()):
+                    r2 = prove(ctx, claim_formula(ac), h.timeout_ms, extra=extra)
+                    if r2["status"] == "proved":
+                        rec["status"] = "proved"
+                        rec["via"] = ac.label
+                        rec["t"] = round(rec["t"] + r2["t"], 4)
+                        break
             records.append(rec)
         stats["queries"] += ctx.queries
         stats["solver_time"] += ctx.solver_time
